@@ -626,7 +626,7 @@ fn real_binary_cases(ctx: &Ctx) {
 
 fn start_watchdog() {
     crate::util::watchdog::start(
-        10.0,
+        30.0,
         Box::new(|text, stage| {
             eprintln!("[c06 hang] stage={} text={:?}", stage, text);
             if let Ok(j) = std::env::var("C06_JOURNAL") {
